@@ -30,7 +30,15 @@ def rule_constructors(ctx):
         if im["trait"] == "std::convert::From" and im["self_ty"] == "utf32_str::Utf32String":
             for it in im["items"]:
                 if it not in ctors and it not in deleg:
-                    ctx.fail_closed("new constructor %s: not covered" % it)
+                    # a further conversion is covered when it merely hands the (untransformed) text to a covered one
+                    f2 = get_fn(facts, M, it)
+                    cs2 = [callee(t) for bi, t in f2.calls()]
+                    inner2 = [c for c in cs2 if ("Utf32String" in c and "From" in c) or c.endswith("Into<U>>::into") or "into" in c.rsplit("::", 1)[-1] or c.endswith("Utf32Str::<'a>::new")]
+                    transforms2 = [c for c in cs2 if any(x in c for x in ("to_lowercase", "to_uppercase", "trim", "replace", "chars", "normalize", "split", "repeat"))]
+                    if inner2 and not transforms2 and not list(f2.loops()):
+                        ctx.ok(site(f2, 0), "additional conversion %s delegates to a covered constructor without touching the text" % it.split("From<")[1].rstrip(">:from"))
+                    else:
+                        ctx.fail_closed("new constructor %s: not covered" % it)
     n = 0
     for name in ctors:
         fn = get_fn(facts, M, name)
